@@ -482,3 +482,54 @@ V("c17-import-dup", "C17", "fire", "C17.R3",
         "        self.top.imports += (pkgname, )"))
 V("c17-comment-hash-key", "C17", "silent", None,
   (SLF, "        lst = sorted(self.items())", "        lst = sorted(self.items())  # keys only"))
+
+# ---------------------------------------------------------------- C20
+LH = "src/ZConfig/components/logger/handlers.py"
+LL = "src/ZConfig/components/logger/logger.py"
+LHD = "src/ZConfig/components/logger/loghandler.py"
+LDT = "src/ZConfig/components/logger/datatypes.py"
+LF = "src/ZConfig/components/logger/formatter.py"
+V("c20-level-warn", "C20", "fire", "C20.R1", (LDT, '"warn": 30,', '"warn": 35,'))
+V("c20-level-range", "C20", "fire", "C20.R1", (LDT, "if v < 0 or v > 50:", "if v < 0 or v >= 50:"))
+V("c20-level-nolower", "C20", "fire", "C20.R1", (LDT, "s = str(value).lower()", "s = str(value)"))
+V("c20-stdout-delay-ok", "C20", "fire", "C20.R3",
+  (LH, "            if delay:\n                raise ValueError(\"cannot delay opening \" + path)\n", ""))
+V("c20-rotation-no-oldfiles", "C20", "fire", "C20.R3",
+  (LH, "            if not old_files:\n                raise ValueError(\"old-files must be set for log rotation\")\n", ""))
+V("c20-stderr-stdout-swap", "C20", "fire", "C20.R3",
+  (LH, "                return loghandler.StreamHandler(sys.stderr)", "                return loghandler.StreamHandler(sys.stdout)"))
+V("c20-interval-default", "C20", "fire", "C20.R3",
+  (LH, "                    interval = 1\n", "                    interval = 0\n"))
+V("c20-factory-recreate", "C20", "fire", "C20.R4",
+  ("src/ZConfig/components/logger/factory.py",
+   "        if self.instance is _marker:\n            self.instance = self.create()\n        return self.instance",
+   "        self.instance = self.create()\n        return self.instance"))
+V("c20-logger-no-setlevel", "C20", "fire", "C20.R5",
+  (LL, "        logger.setLevel(self.level)\n", ""))
+V("c20-null-handler-always", "C20", "fire", "C20.R5",
+  (LL, "        else:\n            from ZConfig.components.logger import loghandler\n            logger.addHandler(loghandler.NullHandler())",
+       "        from ZConfig.components.logger import loghandler\n        logger.addHandler(loghandler.NullHandler())"))
+V("c20-propagate-dropped", "C20", "fire", "C20.R5",
+  (LL, "        logger.propagate = self.propagate\n", ""))
+V("c20-handler-level-logger", "C20", "fire", "C20.R5",
+  (LH, "        logger.setLevel(self.section.level)\n        return logger",
+       "        logger.setLevel(0)\n        return logger"))
+V("c20-close-no-unregister", "C20", "fire", "C20.R6",
+  (LHD, "        logging.handlers.RotatingFileHandler.close(self)\n        _remove_from_reopenable(self._wr)",
+        "        logging.handlers.RotatingFileHandler.close(self)"))
+V("c20-reopen-iter-live", "C20", "fire", "C20.R6",
+  (LHD, "    for wr in _reopenable_handlers[:]:", "    for wr in _reopenable_handlers:"))
+V("c20-style-extra", "C20", "fire", "C20.R7",
+  (LF, "    'safe-template': SafeStringTemplateStyle,\n}", "    'safe-template': SafeStringTemplateStyle,\n    'printf': PercentStyle,\n}"))
+V("c20-xml-attr-renamed", "C20", "fire", "C20.R2",
+  ("src/ZConfig/components/logger/handlers.xml",
+   '<key name="old-files" required="no" default="0" datatype="integer">',
+   '<key name="old-files" attribute="backups" required="no" default="0" datatype="integer">'))
+V("c20-python-attr-typo", "C20", "fire", "C20.R2",
+  (LH, "        host, port = self.section.smtp_server", "        host, port = self.section.smtp_host"))
+V("c20-eventlog-name", "C20", "fire", "C20.R5",
+  (LL, '    """Logger factory that returns the root logger."""\n\n    name = None',
+       '    """Logger factory that returns the root logger."""\n\n    name = "root"'))
+V("c20-elif-flatten-equiv", "C20", "silent", None,
+  (LH, "        if path == \"STDERR\":\n            check_std_stream()\n",
+       "        if \"STDERR\" == path:\n            check_std_stream()\n"))
